@@ -65,54 +65,49 @@ func minDist(p geom.Point, r *geom.Bounds) float64 {
 func minMaxDist(p geom.Point, r *geom.Bounds) float64 {
 	// by definition, MinMaxDist(p, r) =
 	// min{1<=k<=n}(|pk - rmk|^2 + sum{1<=i<=n, i != k}(|pi - rMi|^2))
-	// where rmk and rMk are defined as follows:
+	// where rmk is the face of r nearer to p along axis k and rMk the
+	// farther one. The faces are told apart by their computed distances
+	// from p (the midpoint of two faces need not be a float64), and each
+	// term is summed directly (S - d1*d1 + d2*d2 cancels), so that the
+	// rounded result is never below the rounded minDist of the object that
+	// touches face rmk, nor below minDist(p, r) itself.
 
 	rmX := func() float64 {
-		if p.X <= (r.Min.X+r.Max.X)/2 {
+		if math.Abs(p.X-r.Min.X) <= math.Abs(p.X-r.Max.X) {
 			return r.Min.X
 		}
 		return r.Max.X
 	}
 	rmY := func() float64 {
-		if p.Y <= (r.Min.Y+r.Max.Y)/2 {
+		if math.Abs(p.Y-r.Min.Y) <= math.Abs(p.Y-r.Max.Y) {
 			return r.Min.Y
 		}
 		return r.Max.Y
 	}
 
 	rMX := func() float64 {
-		if p.X >= (r.Min.X+r.Max.X)/2 {
+		if math.Abs(p.X-r.Min.X) >= math.Abs(p.X-r.Max.X) {
 			return r.Min.X
 		}
 		return r.Max.X
 	}
 	rMY := func() float64 {
-		if p.Y >= (r.Min.Y+r.Max.Y)/2 {
+		if math.Abs(p.Y-r.Min.Y) >= math.Abs(p.Y-r.Max.Y) {
 			return r.Min.Y
 		}
 		return r.Max.Y
 	}
 
-	// This formula can be computed in linear time by precomputing
-	// S = sum{1<=i<=n}(|pi - rMi|^2).
-
-	S := 0.0
-	d := p.X - rMX()
-	S += d * d
-	d = p.Y - rMY()
-	S += d * d
-
-	// Compute MinMaxDist using the precomputed S.
 	min := math.MaxFloat64
-	d1 := p.X - rMX()
-	d2 := p.X - rmX()
-	d = S - d1*d1 + d2*d2
+	d1 := p.X - rmX()
+	d2 := p.Y - rMY()
+	d := d1*d1 + d2*d2
 	if d < min {
 		min = d
 	}
-	d1 = p.Y - rMY()
-	d2 = p.Y - rmY()
-	d = S - d1*d1 + d2*d2
+	d1 = p.Y - rmY()
+	d2 = p.X - rMX()
+	d = d1*d1 + d2*d2
 	if d < min {
 		min = d
 	}
